@@ -1234,6 +1234,29 @@ void rfbInitServer(rfbScreenInfoPtr screen)
 }
 
 void rfbShutdownServer(rfbScreenInfoPtr screen,rfbBool disconnectClients) {
+  /*
+    Stop accepting connections first: a client accepted by the listener thread while the
+    existing clients are being disconnected below would be missed (never closed, its thread
+    never joined), or be caught half-way through its creation.
+  */
+  rfbHttpShutdownSockets(screen);
+  rfbShutdownSockets(screen);
+
+#ifdef LIBVNCSERVER_HAVE_LIBPTHREAD
+  if (screen->backgroundLoop) {
+      /*
+	Notify the listener thread. This simply writes a NULL byte to the notify pipe in order to get past the select()
+	in listenerRun, the loop in there will then break because the rfbShutdownSockets() above has set screen->socketState.
+      */
+      write(screen->pipe_notify_listener_thread[1], "\x00", 1);
+      /* And wait for it to finish. */
+      pthread_join(screen->listener_thread, NULL);
+      /* Now we can close the pipe */
+      close(screen->pipe_notify_listener_thread[0]);
+      close(screen->pipe_notify_listener_thread[1]);
+  }
+#endif
+
   if(disconnectClients) {
     /* also the clients that are already closed but not yet reaped by rfbProcessEvents() */
     rfbClientIteratorPtr iter = rfbGetClientIteratorWithClosed(screen);
@@ -1270,24 +1293,6 @@ void rfbShutdownServer(rfbScreenInfoPtr screen,rfbBool disconnectClients) {
 
     rfbReleaseClientIterator(iter);
   }
-
-  rfbHttpShutdownSockets(screen);
-  rfbShutdownSockets(screen);
-
-#ifdef LIBVNCSERVER_HAVE_LIBPTHREAD
-  if (screen->backgroundLoop) {
-      /*
-	Notify the listener thread. This simply writes a NULL byte to the notify pipe in order to get past the select()
-	in listenerRun, the loop in there will then break because the rfbShutdownSockets() above has set screen->socketState.
-      */
-      write(screen->pipe_notify_listener_thread[1], "\x00", 1);
-      /* And wait for it to finish. */
-      pthread_join(screen->listener_thread, NULL);
-      /* Now we can close the pipe */
-      close(screen->pipe_notify_listener_thread[0]);
-      close(screen->pipe_notify_listener_thread[1]);
-  }
-#endif
 }
 
 #if !defined LIBVNCSERVER_HAVE_GETTIMEOFDAY && defined WIN32
